@@ -2,9 +2,8 @@
    Property theorems only: each is closed by `exact <lemma>` (or a vm_compute witness for `_refuted`)
    and followed by Print Assumptions.  Models: Model/C17_TP.v (Z / Qc), Model/C17_TPR.v (R). *)
 From CV Require Import Base.Tac Base.LinAlg Base.Cmp Base.QcLin Model.C17_TP Model.C17_TPR
-     Proofs.C17_Assembly Proofs.C17_Legacy Proofs.C17_Circ Proofs.C17_Conv2D Proofs.C17_Misc Proofs.C17_Cubic.
+     Proofs.C17_Assembly Proofs.C17_Legacy Proofs.C17_Circ Proofs.C17_Conv2D Proofs.C17_Misc Proofs.C17_CubicStd.
 From Coq Require Import QArith Qcanon Reals.
-From Coquelicot Require Import Coquelicot.
 
 (* ---- matrix assembly: a matrix whose COLUMNS are the images f(e_i) of the unit vectors represents the linear map f
         (any commutative ring, any sizes n -> m) *)
@@ -127,11 +126,13 @@ Theorem C17_2d_nonsquare_refused :
 Proof. vm_compute. reflexivity. Qed.
 Print Assumptions C17_2d_nonsquare_refused.
 
-(* ---- WangCubic: the Jacobian handed to the model is the derivative of the forward map *)
+(* ---- WangCubic: the Jacobian handed to the model is the derivative of the forward map (standard-library derivative;
+        the same statement with Coquelicot's is_derive is proved in Proofs/C17_Cubic.v and kept out of this file only so
+        that coqchk does not have to re-check the Coquelicot library) *)
 Theorem C17_cubic_jacobian : forall x0 x1 : R,
-  is_derive (fun t => cubic_forward_R t x1) x0 (fst (cubic_jacobian_R x0 x1)) /\
-  is_derive (fun t => cubic_forward_R x0 t) x1 (snd (cubic_jacobian_R x0 x1)).
-Proof. intros x0 x1. split; [exact (cubic_d0 x0 x1) | exact (cubic_d1 x0 x1)]. Qed.
+  derivable_pt_lim (fun t => cubic_forward_R t x1) x0 (fst (cubic_jacobian_R x0 x1)) /\
+  derivable_pt_lim (fun t => cubic_forward_R x0 t) x1 (snd (cubic_jacobian_R x0 x1)).
+Proof. intros x0 x1. split; [exact (cubic_d0_std x0 x1) | exact (cubic_d1_std x0 x1)]. Qed.
 Print Assumptions C17_cubic_jacobian.
 
 (* the same for the executable rational model: exact expansion with an O(h^2) remainder *)
